@@ -3,7 +3,6 @@ package main
 import (
 	"go/token"
 	"go/types"
-	"strings"
 
 	"golang.org/x/tools/go/ssa"
 )
@@ -321,8 +320,7 @@ func (c *Ctx) errCauseIsCtxErr(ev ssa.Value, ctx ssa.Value) bool {
 	if call == nil || callee == nil || callee.Pkg != c.Pkg {
 		return false
 	}
-	switch callee.Name() {
-	case "wrapError", "wrapErrorf", "wrapErrorWithRetry":
+	if c.isWrapFn(callee) {
 		return len(call.Call.Args) > 0 && c.isCtxMethodOf(call.Call.Args[0], "Err", ctx)
 	}
 	return false
@@ -391,7 +389,7 @@ func (c *Ctx) ruleRetryableFailures(rr *RuleRep, sites []*reqSite) []handleUse {
 				if rr != nil {
 					rr.OK(key, ret.Pos(), "delegates to stage %s (checked separately)", FuncName(callee))
 				}
-			case callee != nil && callee.Pkg == c.Pkg && (callee.Name() == "wrapErrorf" || callee.Name() == "wrapError") && len(call.Call.Args) > 0 && c.isGlobalLoad(call.Call.Args[0], "ErrInvalidSubAck"):
+			case callee != nil && callee.Pkg == c.Pkg && c.isWrapFn(callee) && len(call.Call.Args) > 0 && c.isGlobalLoad(call.Call.Args[0], "ErrInvalidSubAck"):
 				if rr != nil {
 					rr.OKt(key, ret.Pos(), "exempt by table: ErrInvalidSubAck — a SUBACK did arrive; the statement's consequent holds")
 				}
@@ -691,7 +689,7 @@ func (c *Ctx) errCauseNonNil(f *ssa.Function, ev ssa.Value, at ssa.Instruction) 
 		return true
 	}
 	call, callee := c.asCall(ev)
-	if call != nil && callee != nil && callee.Pkg == c.Pkg && strings.HasPrefix(callee.Name(), "wrapError") && len(call.Call.Args) > 0 {
+	if call != nil && callee != nil && callee.Pkg == c.Pkg && c.isWrapFn(callee) && len(call.Call.Args) > 0 {
 		return nonNil(call.Call.Args[0])
 	}
 	return false
